@@ -216,6 +216,53 @@ def check_heap(case):
     return ("heap", a[0] >= 2.0 ** 31), fails
 
 
+def check_heap_layout(case):
+    """case = ("hlay", times, perm, stale): a heap whose C array is the heap-ordered arrangement perm of the given
+    (distinct, sorted) times; the slots in stale are trashed entries of one handler X whose deletion counter then
+    overflows (2^32): X's next push goes through delete_events.  All live events must afterwards be delivered in the
+    exact (quotient, remainder) order, by the heap and by the list scheduler."""
+    from jellyfysh.base.time import Time
+    from jellyfysh.scheduler.heap_scheduler.heap_scheduler import HeapScheduler
+    from jellyfysh.scheduler.list_scheduler import ListScheduler
+    _, times, perm, stale, newt = case
+    fails = []
+    for cls in (HeapScheduler, ListScheduler):
+        s = cls()
+        live = {}
+        try:
+            for j, rank in enumerate(perm):
+                t = times[rank]
+                if j in stale:
+                    s.push_event(Time(*t), "X")
+                    s.trash_event("X")
+                else:
+                    s.push_event(Time(*t), "h%d" % j)
+                    live["h%d" % j] = t
+            if cls is HeapScheduler:
+                s._minimal_valid_counter["X"] = 2 ** 32
+            s.push_event(Time(*newt), "X")
+            live["X"] = newt
+            got = []
+            while live:
+                h = s.get_succeeding_event()
+                got.append(h)
+                if h not in live:
+                    break
+                s.trash_event(h)
+                del live[h]
+        except Exception as e:
+            fails.append(("heap-exception", "%s: layout %r stale %r: %r" % (cls.__name__, perm, stale, e)))
+            continue
+        all_live = {("h%d" % j): times[rank] for j, rank in enumerate(perm) if j not in stale}
+        all_live["X"] = newt
+        gv = [val(*all_live[h]) if h in all_live else None for h in got]
+        if None in gv or len(got) != len(all_live) or any(gv[i] > gv[i + 1] for i in range(len(gv) - 1)):
+            fails.append(("heap-order", "%s: heap array %r (times %r), stale slots %r of X, X pushes Time%r after its "
+                          "counter overflowed: delivered %r, not the exact time order"
+                          % (cls.__name__, perm, times, stale, newt, got)))
+    return ("hlay", times[0][0] >= 2.0 ** 31), fails
+
+
 def check_update(case):
     """case = ("upd", a, b, [c...]): an instance advanced in place with update() (as the event handlers do with the
     time stamps of units) must behave exactly like a fresh instance with the new value."""
@@ -260,7 +307,11 @@ def check_update(case):
     return ("upd", a[0] >= 2.0 ** 31), fails
 
 
-DISPATCH = {"upd": check_update, "heap": check_heap, "add": check_add, "cmp": check_cmp, "ff": check_from_float, "chain": check_chain}
+DISPATCH = {"hlay": check_heap_layout, "upd": check_update, "heap": check_heap, "add": check_add, "cmp": check_cmp, "ff": check_from_float, "chain": check_chain}
+
+
+def heap_orders(n):
+    return [p for p in itertools.permutations(range(n)) if all(p[(j - 1) // 2] < p[j] for j in range(1, n))]
 
 
 def check_case(case):
@@ -279,6 +330,16 @@ def cases(ctx):
     finite = [t for t in times if not math.isinf(t[0])]
     for a in finite:
         yield ("heap", a, finite)
+    # heap layouts at early and late times (all heap-ordered arrays of 6 / 7 entries, every stale slot)
+    for base in ([0.0, 2.0 ** 31, 2.0 ** 40, 2.0 ** 52 - 2.0] if big else [0.0, 2.0 ** 40]):
+        ladder = [(base, 0.0), (base, 2.0 ** -53), (base, 0.25), (base, up(0.25)), (base, 1.0 - 2.0 ** -53),
+                  (base + 1.0, 0.0), (base + 1.0, 2.0 ** -53)]
+        for n in ((5, 6, 7) if big else (6,)):
+            times = ladder[:n]
+            for perm in heap_orders(n):
+                for slot in range(n):
+                    for newt in (times[2], (base + 1.0, 0.5)):
+                        yield ("hlay", times, perm, (slot,), newt)
     sub = [(0.0, 0.25), (0.0, 0.5), (1.0, 0.25), (1.0, down(0.5)), (1.0, 0.5), (2.0, 0.0), (2.0 ** 31, 0.5),
            (2.0 ** 52, 0.25), (INF, INF)]
     for a in sub:
